@@ -132,6 +132,7 @@ def render(ir, n):
     out = [PRELUDE, EXTRA]
     e = out.append
     e("fn spike(m, kind) { var big = []; var j = 0; while j < m { big.push(mk(kind, j)); j = j + 1; } return big.len(); }")
+    e("fn natshow(v) { if type(v) == Num || type(v) == String || type(v) == Bool || v == nil { return v; } return type(v); }")
     e("fn run(n) {")
     e("  var acc = 0;")
     e("  var ring = [%s];" % ", ".join(("mkgen(nil, %d)" % j) if kd == 11 else ("mkretfin(nil)" if kd == 12 else ("mk(%d, %d)" % (kd, j))) for j, kd in enumerate(ir["slots"])))
@@ -149,6 +150,9 @@ def render(ir, n):
             e("    if i == %d { acc = acc + spike(%d, %d); }" % (ir["n"] // 2, sp[1], sp[2]))
     for g, site in ir["body"]:
         e("    " + GARBAGE[g].replace("{site}", site or ""))
+    for j, expr in enumerate(ir.get("nat", [])):
+        # built-ins called with awkward arguments: whatever each call does - a value or an error - it must leave nothing behind
+        e("    try { natshow(%s); } catch ne%d { acc = acc + 1; }" % (expr, j))
     e("    i = i + 1;")
     e("  }")
     # quiescence: the bounded live set (ring, headf, prevf) is still referenced; everything else must be reclaimable
@@ -161,6 +165,23 @@ def render(ir, n):
     # of freshly built and of literal values, and a string method
     e('print(("ev", "types", type("he" + "llo") == String, type("hello") == String, type([1]) == Vec, type((1, 2)) == Tuple, type({}) == HashMap, type(1..2) == Range, "hello".len(), IndexError != ValueError));')
     return "\n".join(out) + "\n"
+
+
+def nat_exprs(seed):
+    """expressions of C10's NAT generator (every built-in method and operator, awkward arguments) for the loop body"""
+    from . import c10
+    rng = Rng(seed)
+    out = []
+    for _ in range(rng.range(40, 110)):
+        r = rng.choice(c10.NAT_RECEIVERS)
+        if rng.chance(0.4):
+            out.append("%s.%s(%s)" % (r, rng.choice(c10.NAT_METHODS), ", ".join(rng.choice(c10.NAT_ARGS) for _ in range(rng.weighted([(3, 0), (5, 1), (3, 2), (1, 3)])))))
+        else:
+            out.append(rng.choice(c10.NAT_OPS).format(r=r, a=rng.choice(c10.NAT_ARGS), b=rng.choice(c10.NAT_ARGS), n=rng.choice(c10.NAT_POS)))
+    return out
+
+
+N_NAT = {"quick": 100, "thorough": 6000}
 
 
 def fault_plan(rng, ir, occurrences):
@@ -232,7 +253,8 @@ class C16:
             "fresh ranges, failing natives and operations, thrown objects, injected host failures at top level / in a callee / in a "
             "fiber (fault plan over dynamic occurrences), returns through finally, successful and failing imports); each case runs "
             "with N and 2N iterations under the real threshold pacing (release build) and once under never-collect; invariants I1/I2 "
-            "at every allocation event, I3/I4/I5 over the history. non-trivial = >= 1 collection under native pacing; distinct = program hash")
+            "at every allocation event, I3/I4/I5 over the history. 100 (thorough: 6 000) further programs put 40-110 calls of built-in methods and operators with awkward arguments "
+            "(C10's NAT generator: wrong types, counts, sizes, positions; most of them fail and are caught) into the loop body and run few rounds: whatever a built-in does, it must leave nothing behind. non-trivial = >= 1 collection under native pacing; distinct = program hash")
     COMPONENTS = {"real": ["heap allocate_raw/collect_if_required/collect/sweep with native threshold pacing (release profile)", "Root/UniqueRoot accounting", "compiler, VM, core library"],
                   "stub": ["observer of allocation/collection events and heap statistics (verif_hooks, observe-only)", "fault-point native", "module loader"]}
     ASSUMPTIONS = ["the bound is on the heap's own accounting unit (shallow size_of::<T>() per object), which is what the property anchors and the pacing uses; memory owned behind a box (a fiber's value stack, vector buffers) is not counted by yarel and therefore not by this check",
@@ -243,14 +265,23 @@ class C16:
         return ["release+hooks"]
 
     def plan(self, tier):
-        return 400 if tier == "quick" else 30000
+        return N_NAT[tier] + (400 if tier == "quick" else 30000)
 
     def wall_cap(self, tier):
         return 240 if tier == "quick" else 3300
 
     def generate(self, seed, idx, tier):
-        cseed = derive(seed, "C16", idx)
+        nat = None
+        if idx < N_NAT[tier]:
+            cseed = derive(seed, "C16-nat", idx)
+            nat = nat_exprs(derive(cseed, "exprs"))
+        else:
+            idx -= N_NAT[tier]      # (the other programs keep the seeds they had before the NAT family was added)
+            cseed = derive(seed, "C16", idx)
         ir = gen_ir(cseed)
+        if nat:
+            ir["nat"] = nat
+            ir["n"] = 150 + cseed % 250       # many different calls, few rounds: a leak of one object per round shows in N vs 2N
         rng = Rng(derive(cseed, "faults"))
         faults = fault_plan(rng, ir, 2 * ir["n"])
         return {"ir": ir, "faults": faults}
@@ -276,6 +307,9 @@ class C16:
         stats.inc("programs")
         for g, _ in ir["body"]:
             stats.inc("garbage:" + g)
+        if ir.get("nat"):
+            stats.inc("programs_calling_built_ins_with_awkward_arguments")
+            stats.inc("awkward_built_in_calls_per_iteration", len(ir["nat"]))
         stats.inc("ring_slots", len(ir["slots"]))
         stats.inc("spikes", len(ir["spikes"]))
         res = {"stats": stats, "nontrivial": False, "key": stable_hash(ir), "scenario": sc}
@@ -454,6 +488,10 @@ class C16:
         for i in range(len(ir["body"]) - 1, -1, -1):
             d = copy.deepcopy(ir)
             del d["body"][i]
+            yield dict(sc, ir=d)
+        for i in range(len(ir.get("nat", [])) - 1, -1, -1):
+            d = copy.deepcopy(ir)
+            del d["nat"][i]
             yield dict(sc, ir=d)
         for i in range(len(ir["spikes"])):
             d = copy.deepcopy(ir)
